@@ -227,11 +227,14 @@ def obligations(tier, seed):
         # substitution-group competition in both orders is always part of the quick tier (both versions: XSD 1.1 has its own
         # element overlap test)
         subst = [s for s in cat if S.shape_id(s) in ("(m | h)", "(h | m)", "(m, h)", "(h, m)")]
+        # ... and the transitive member l (behind the abstract intermediate member m2) against the head
+        subst += [S.C(S.E('l'), S.E('h')), S.S(S.E('h'), S.E('l'))]
         plan = [(s, v) for s in subst for v in ("1.0", "1.1")] + [(s, v) for s, v in plan if s not in subst]
         to = 400
     else:
         n5 = by_n.get(5, [])
         plan = [(s, v) for s in small for v in ("1.0", "1.1")] + [(s, v) for s in rnd.sample(n5, min(60, len(n5))) for v in ("1.0", "1.1")]
+        plan += [(s, v) for s in (S.C(S.E('l'), S.E('h')), S.C(S.E('h'), S.E('l')), S.S(S.E('l'), S.E('h')), S.S(S.E('h'), S.E('l'))) for v in ("1.0", "1.1")]
         to = 1500
     out = []
     c11 = S.catalogue_11()
